@@ -64,6 +64,25 @@ const PROGRAMS: &[&str] = &[
     "(tostring | @uri), (tostring | @uri | @urid), (tostring | @base64 | @base64d), (\"a%41\" | @urid)",
     "@text, (tostring | @csv \"\\(.)\"), (tostring | @tsv \"\\(.)\"), (tostring | @sh), ([tostring] | @csv)",
     "del(.a)?, del(.b)?, del(.[0])?, (del(.c)? | tojson)",
+    // calls whose arguments concatenate to the same text (a cache keyed by the concatenation would mix them up)
+    "\"AI\" | test(\"ai\"), test(\"ai\"; \"\"), [match(\"ai\"; \"g\").offset]",
+    "\"AI\" | test(\"a\"; \"i\"), test(\"a\"; \"i\"), [match(\"a\"; \"gi\").offset]",
+    "\"xi\" | test(\"is\"), test(\"is\"), [scan(\"is\")]",
+    "\"xi\" | test(\"i\"; \"s\"), test(\"i\"; \"s\"), [scan(\"i\"; \"s\")]",
+    "\"gx\" | test(\"xg\"), [match(\"x\"; \"g\").offset], test(\"g\"; \"x\")",
+    "\"a.b\" | sub(\"a.\"; \"b\"), sub(\"a\"; \".b\"), split(\"a.\"; \"b\")?, [splits(\"a\"; \".b\"?)]?",
+    "\"ab\" | ltrimstr(\"a\"), rtrimstr(\"b\"), startswith(\"ab\"), endswith(\"\"), (split(\"a\") | join(\"b\"))",
+    "(\"%Y\" | strptime(\"%Y\")?), (0 | strftime(\"%Y%m\")), (0 | strftime(\"%Y\") + strftime(\"%m\"))",
+    // executions that end in errors inside nested structures (a leaked counter or flag would show later)
+    "\"[[[[[[[[[[[[[[[[[[[[[[[[[[[[[[[[[[[[[[[[[[[[[[[[[[[[[[[[[[[[1,\" | try fromjson catch \"e\"",
+    "\"{\\\"a\\\":{\\\"a\\\":{\\\"a\\\":{\\\"a\\\":{\\\"a\\\":{\\\"a\\\":{\\\"a\\\":[\" | try fromjson catch \"e\"",
+    "\"a: [b, {c: [d\" | try fromyaml catch \"e\"",
+    "\"<a><b><c><d>\" | try fromxml catch \"e\"",
+    "\"((((((((((a\" as $re | try test($re) catch \"e\"",
+    "try ([[[[[[[[[[1]]]]]]]]]] | getpath([0,0,0,0,0,0,0,0,0,0,0,\"x\"])) catch \"e\"",
+    "[limit(5; repeat(1))] | try (.[7] = 1) catch \"e\"",
+    "try ([range(40)] | combinations(3) | error(\"stop\")) catch \"e\"",
+    "[[1,[2]],[[3]]] | fromjson? // (tojson | fromjson)",
     // single filters: the isolated run owns its input uniquely, the interleaved runs share it
     "del(.a)",
     "delpaths([[\"b\"]])",
@@ -216,7 +235,7 @@ fn main() {
     let ins = inputs();
     // tasks: every program on two inputs
     let tasks: Vec<(usize, usize)> = task_list();
-    let pulls = 3;
+    let pulls = if run.quick() { 2 } else { 3 };
     let steps = pulls + 2; // create, pulls, drop
     // what each task observes alone
     // the oracle: each task in a process of its own (nothing else was ever compiled or run there, and its
@@ -234,7 +253,7 @@ fn main() {
             (list(&v[0]), list(&v[1]))
         })
         .collect();
-    let alone: Vec<Vec<String>> = iso.iter().map(|x| x.0.clone()).collect();
+    let alone: Vec<Vec<String>> = iso.iter().map(|x| if pulls == 3 { x.0.clone() } else { x.1.clone() }).collect();
     // the same task alone in this process (all filters compiled, input shared with other tasks) must agree with it
     for (k, (p, i)) in tasks.iter().enumerate() {
         let here = run_schedule(&[&filters[*p]], &[ins[*i].clone()], &vec![0; steps], pulls, None).remove(0);
@@ -249,6 +268,23 @@ fn main() {
             run.violation(&format!("rerun: {} @ {}", PROGRAMS[*p], ins[*i]), json!({"first": alone[k], "second": again}));
         }
     }
+
+    // soak: many executions of every task one after the other in this process (errors included), then every
+    // task alone again: nothing may accumulate (counters, caches, flags) that changes a later result
+    let rounds = if run.quick() { 40 } else { 400 };
+    for r in 0..rounds {
+        for k in 0..tasks.len() {
+            let (p, i) = tasks[(k * 7 + r) % tasks.len()];
+            let _ = run_schedule(&[&filters[p]], &[ins[i].clone()], &vec![0; steps], pulls, None);
+        }
+    }
+    for (k, (p, i)) in tasks.iter().enumerate() {
+        let after = run_schedule(&[&filters[*p]], &[ins[*i].clone()], &vec![0; steps], pulls, None).remove(0);
+        if after != alone[k] {
+            run.violation(&format!("after {} executions of every task: {} @ {}", rounds, PROGRAMS[*p], ins[*i]), json!({"isolated_process": alone[k], "after_soak": after}));
+        }
+    }
+    run.extra.lock().unwrap().insert("soak_executions".into(), json!(rounds * tasks.len()));
 
     // (1) pairs of tasks, every interleaving; with and without a compiling task in between
     let sched2 = interleavings(2, steps);
@@ -280,7 +316,7 @@ fn main() {
 
     // (2) pairs with a third task that compiles and drops filters between the steps (shorter tasks: create, 1 pull, drop)
     // compiling is three orders of magnitude dearer than a pull: the quick tier takes every 40th pair and the diagonal
-    let cpairs: Vec<(usize, usize)> = pairs.iter().enumerate().filter(|(k, p)| k % (if run.quick() { 40 } else { 5 }) == 0 || p.0 == p.1).map(|(_, p)| *p).collect();
+    let cpairs: Vec<(usize, usize)> = pairs.iter().enumerate().filter(|(k, p)| if run.quick() { k % 200 == 0 || (p.0 == p.1 && p.0 % 3 == 0) } else { k % 10 == 0 || p.0 == p.1 }).map(|(_, p)| *p).collect();
     let c = cpairs
         .par_iter()
         .map(|(a, b)| {
